@@ -187,7 +187,11 @@ pub fn render(s: &TypeSpec) -> Option<Rendered> {
 }
 
 pub fn run(ctx: &Ctx) -> i32 {
-    let b = Behaviour {
+    crate::props::behave::run(ctx, &behaviour())
+}
+
+pub fn behaviour() -> Behaviour {
+    Behaviour {
         prop: "C07",
         rule: "structs, enums and unions with Clone educed (with and without Copy) and Clone(method) fields; instrumented field types: Tracked (records \
                provenance and counts Clone::clone / clone_from calls) and Weird (Copy, but its Clone::clone returns a different value); for every value \
@@ -203,6 +207,5 @@ pub fn run(ctx: &Ctx) -> i32 {
         thorough: 8000,
         batch: 25,
         assumptions: &["generation counters are excluded from 'indistinguishable' because clone_from may legitimately reuse storage"],
-    };
-    crate::props::behave::run(ctx, &b)
+    }
 }
